@@ -22,16 +22,16 @@ import (
 )
 
 type Ctx struct {
-	Tier    string
-	Seed    int64
-	Rng     *rand.Rand
-	Dir     string // scratch directory (removed by bin/check)
-	out     *bufio.Writer
-	mu      sync.Mutex
-	nextID  int
+	Tier     string
+	Seed     int64
+	Rng      *rand.Rand
+	Dir      string // scratch directory (removed by bin/check)
+	out      *bufio.Writer
+	mu       sync.Mutex
+	nextID   int
 	children int
-	Stats   map[string]int
-	Replay  string
+	Stats    map[string]int
+	Replay   string
 	Thorough bool
 }
 
@@ -126,12 +126,19 @@ func genReplay(c *Ctx) {
 		fmt.Fprintf(os.Stderr, "replay: unknown case kind %q\n", rf.Case.K)
 		os.Exit(2)
 	}
+	if f, ok := replayers[rf.Case.K]; ok {
+		f(c, rf.Case.In)
+		return
+	}
 	if childKinds[rf.Case.K] {
 		c.DoChild(rf.Case.K, rf.Case.In, 60*time.Second)
 		return
 	}
 	c.Do(rf.Case.K, rf.Case.In)
 }
+
+// kinds whose runner fills in parts of the input (times, ids): they emit themselves
+var replayers = map[string]func(c *Ctx, in M){}
 
 // kinds that must run in a child process
 var childKinds = map[string]bool{}
